@@ -999,6 +999,8 @@ def _xml_encoded(tier):
     variants = ['valid', 'unknown-element', 'other-version']
     for label, codec, bom, canon in storages:
         for sname, spice in SPICES:
+            if quick and sname == 'bmp':
+                continue
             try:
                 spice.encode(codec)
             except UnicodeEncodeError:
@@ -1010,6 +1012,8 @@ def _xml_encoded(tier):
                 for dname, dcanon in decls:
                     if variant == 'big' and dname not in (None, 'UTF-8', 'ISO-8859-1', 'UTF-16'):
                         continue
+                    if quick and variant != 'valid' and dcanon not in (None, canon):
+                        continue                # quick tier: damaged variants with a missing or the matching declaration only
                     for nlname, nl in NEWLINES:
                         if nlname != 'LF' and (variant != 'valid' or (quick and dcanon not in (None, canon))):
                             continue
@@ -1075,6 +1079,8 @@ def _xml_bytes(tier, rnd):
     frames = [('bare', b'%s'), ('in text', b'<odML version="1.1"><author>%s</author></odML>'),
               ('in tag', b'<odML version="1.1"><a%s/></odML>'),
               ('in text, Latin-1 declared', b'<?xml version="1.0" encoding="ISO-8859-1"?><odML version="1.1"><author>%s</author></odML>')]
+    if tier == 'quick':
+        frames = frames[:2]
     for n in range(1, maxlen + 1):
         for w in words(n):
             for fname, frame in frames:
@@ -1091,7 +1097,7 @@ def _xml_bytes(tier, rnd):
         decl = '' if dname is None else '<?xml version="1.0" encoding="%s"?>\n' % dname
         bases.append((label, bom + (decl + _pretty(root, '\n')).encode(codec)))
     pool = [0x00, 0x80, 0xc3, 0xff, 0xfe, 0x3c, 0x3e, 0x26, 0x0d]
-    for i in range(300 if tier == 'quick' else 6000):
+    for i in range(180 if tier == 'quick' else 6000):
         label, data = bases[i % len(bases)]
         b = bytearray(data)
         ops = []
@@ -1397,6 +1403,15 @@ def _has_py_objects(x):
     return isinstance(x, (dt.date, dt.time))
 
 
+def _canon(x):
+    """Type-exact, key-order-free form of parsed JSON / YAML data (1, 1.0 and True stay different, nan equals nan)."""
+    if isinstance(x, dict):
+        return ('dict', tuple(sorted((repr(k), _canon(v)) for k, v in x.items())))
+    if isinstance(x, (list, tuple)):
+        return (type(x).__name__, tuple(_canon(v) for v in x))
+    return (type(x).__name__, repr(x))
+
+
 def _dcase(data, fam, feat, problem=False, keep=None):
     return {'data': data, 'fam': fam, 'feat': feat, 'problem': problem, 'keep': keep,
             'witness': {'data': repr(data)[:700]}}
@@ -1573,6 +1588,130 @@ def _classify_dict(case):
         case['other_version'] = True
 
 
+# ---- stored form of JSON / YAML files ---------------------------------------------------------------------
+#
+# Which stored forms a reader certainly has to take (all clauses apply) - from the format definitions, not from
+# what the json / yaml modules do:
+#   JSON (RFC 8259, 8.1): UTF-8 without byte order mark.  A parser MAY ignore a mark, earlier RFCs allowed UTF-16/32:
+#                         for those forms only termination is judged.
+#   YAML (1.1, 5.2; 1.2, 5.2): UTF-8 and UTF-16, with byte order mark (for UTF-8 also without).
+#   Latin-1 / windows-1252 bytes with raw non-ASCII characters are neither: only termination is judged.
+D_STORAGE = [  # (label, codec, byte order mark, YAML must be accepted, JSON must be accepted)
+    ('utf-8', 'utf-8', b'', True, True), ('utf-8+bom', 'utf-8', _BOM8, True, False),
+    ('utf-16-le+bom', 'utf-16-le', _BOM16LE, True, False), ('utf-16-be+bom', 'utf-16-be', _BOM16BE, True, False),
+    ('utf-16-le', 'utf-16-le', b'', False, False), ('utf-32-le+bom', 'utf-32-le', _BOM32LE, False, False),
+    ('iso-8859-1', 'latin-1', b'', False, False), ('windows-1252', 'cp1252', b'', False, False),
+]
+
+
+def _d_enc(spice, variant):
+    d = {'odml-version': CURRENT,
+         'Document': {'author': 'A' + spice, 'version': '1', 'sections': [
+             {'name': 's' + spice, 'type': 't', 'definition': spice or 'd',
+              'properties': [{'name': 'p' + spice, 'value': ['v' + spice, 'w'], 'type': 'string'}],
+              'sections': [{'name': 'sub', 'type': 't'}]}]}}
+    sp = ('S', 's' + spice)
+    keep = {(sp,), (sp, ('P', 'p' + spice)), (sp, ('S', 'sub'))}
+    if variant == 'other-version':
+        d['odml-version'] = '1.0'
+        keep = None
+    elif variant == 'big':
+        d['Document']['author'] = 'A' + (spice or 'a') * (70000 // max(1, len(spice)))
+    return d, keep
+
+
+def _dict_texts(fmt, d):
+    """(flavour, text, has line structure) - the generator's own serialisations of d."""
+    if fmt == 'JSON':
+        yield 'escaped', json.dumps(d), False
+        yield 'raw', json.dumps(d, ensure_ascii=False), False
+        yield 'raw-indented', json.dumps(d, ensure_ascii=False, indent=2) + '\n', True
+    else:
+        yield 'escaped', yaml.dump(d, Dumper=_YDUMPER, sort_keys=False), True
+        yield 'raw', yaml.dump(d, Dumper=_YDUMPER, allow_unicode=True, sort_keys=False), True
+        yield 'raw-flow', yaml.dump(d, Dumper=_YDUMPER, allow_unicode=True, default_flow_style=True, sort_keys=True), False
+
+
+def _dict_encoded(tier):
+    """{fmt, data, text, first (first stored form of this text), case} for every stored form of small valid files."""
+    quick = tier == 'quick'
+    for fmt in ('JSON', 'YAML'):
+        for sname, spice in SPICES:
+            if quick and sname == 'bmp':
+                continue
+            for variant in ['valid', 'other-version'] + (['big'] if sname in ('ascii-only', 'latin-1-range', 'astral') else []):
+                if variant == 'big' and quick and sname != 'latin-1-range':
+                    continue
+                d, keep = _d_enc(spice, variant)
+                for flavour, text0, lines in _dict_texts(fmt, d):
+                    for nlname, nl in NEWLINES:
+                        if nlname != 'LF' and (not lines or variant != 'valid' or (quick and flavour != 'raw')):
+                            continue
+                        text = text0.replace('\n', nl)
+                        # the text must denote d (own parsers), otherwise the facts of the case do not apply to it
+                        try:
+                            back = json.loads(text) if fmt == 'JSON' else yaml.load(text, Loader=_YLOADER)
+                        except Exception:                # noqa
+                            continue
+                        if _canon(back) != _canon(d):
+                            continue
+                        first = True
+                        for label, codec, bom, yaml_ok, json_ok in D_STORAGE:
+                            if variant == 'big' and label not in ('utf-8', 'utf-16-le+bom'):
+                                continue
+                            try:
+                                data = bom + text.encode(codec)
+                            except UnicodeEncodeError:
+                                continue
+                            case = _dcase(d, 'stored-form', '%s %s in %s, %s, %s, %s' % (fmt, flavour, label, sname, variant, nlname),
+                                          keep=keep)
+                            case['witness'] = {'format': fmt, 'storage': label, 'flavour': flavour, 'content': sname,
+                                               'variant': variant, 'newline': nlname,
+                                               'bytes': repr(data if len(data) <= 300 else data[:300] + b'...')}
+                            if not (yaml_ok if fmt == 'YAML' else json_ok):
+                                case['judge'] = 'no-hang-only'
+                            yield {'fmt': fmt, 'data': data, 'text': text, 'first': first, 'case': case, 'name': None}
+                            first = False
+    # file names
+    for fmt in ('JSON', 'YAML'):
+        d, keep = _d_enc(SPICES[1][1], 'valid')
+        text = json.dumps(d, ensure_ascii=False) if fmt == 'JSON' else yaml.dump(d, Dumper=_YDUMPER, allow_unicode=True)
+        for name in FILE_NAMES:
+            case = _dcase(d, 'file-name', '%s file named %r' % (fmt, name[:30]), keep=keep)
+            case['witness'] = {'format': fmt, 'file_name': name}
+            yield {'fmt': fmt, 'data': text.encode('utf-8'), 'text': text, 'first': False, 'case': case, 'name': name}
+
+
+def _run_dict_file(col, chk, item, path):
+    fmt, case = item['fmt'], item['case']
+    _classify_dict(case)
+    with open(path, 'wb') as fh:
+        fh.write(item['data'])
+    file_lenient = fmt == 'YAML'            # the YAML file entry point is lenient, the JSON one strict
+    plan = [('ODMLReader(%s).from_file(path str)' % fmt, file_lenient, lambda: ODMLReader(fmt).from_file(path)),
+            ('ODMLReader(%s).from_file(pathlib.Path)' % fmt, file_lenient, lambda: ODMLReader(fmt).from_file(pathlib.Path(path))),
+            ('odml.load(path str, %s)' % fmt.lower(), file_lenient, lambda: odml.load(path, fmt.lower(), True)),
+            ('odml.load(pathlib.Path, %s)' % fmt, file_lenient, lambda: odml.load(pathlib.Path(path), fmt, True))]
+    if item['name'] is not None:
+        plan.append(('ODMLReader(%s).from_file(relative path str)' % fmt, file_lenient,
+                     lambda: ODMLReader(fmt).from_file(os.path.relpath(path))))
+    crc = zlib.crc32(item['data'])
+    for entry, lenient, thunk in plan:
+        out = _run(thunk)
+        col.case(cls_key=(case['fam'], case['feat'], crc, entry, lenient),
+                 sample='%s: %s | %s %s' % (case['fam'], case['feat'], entry, 'lenient' if lenient else 'strict'))
+        chk.check(case, entry, lenient, out, None)
+    if item['first']:
+        # the decoded text through the string entry point: always inside the quantifier
+        tcase = dict(case)
+        tcase.pop('judge', None)
+        entry = 'ODMLReader(%s).from_string(str)' % fmt
+        out = _run(ODMLReader(fmt).from_string, item['text'])
+        col.case(cls_key=(case['fam'], case['feat'], crc, entry, False),
+                 sample='%s: %s | %s strict' % (case['fam'], case['feat'], entry))
+        chk.check(tcase, entry, False, out, None)
+
+
 def run_dict(tier, seed):
     col = h.Collector(
         'C16.dict',
@@ -1597,7 +1736,7 @@ def run_dict(tier, seed):
 
     try:
         with _silence():
-            for case in cases():
+            for ci, case in enumerate(cases()):
                 _classify_dict(case)
                 data = case['data']
                 jtext = ytext = None
@@ -1607,19 +1746,21 @@ def run_dict(tier, seed):
                     except (TypeError, ValueError):
                         jtext = None
                 try:
-                    ytext = yaml.dump(data, Dumper=_YDUMPER)
+                    ytext = yaml.dump(data, Dumper=_YDUMPER, sort_keys=False)
                 except Exception:                # noqa
                     ytext = None
+                if tier == 'quick' and case['fam'] == 'set-key' and ci % 5:
+                    ytext = None                 # quick tier: the (slow) YAML entry points on every fifth set-key case
                 # the text forms must denote the same dictionary, otherwise the case facts do not apply to them
                 if jtext is not None:
                     try:
-                        if repr(json.loads(jtext)) != repr(data):
+                        if _canon(json.loads(jtext)) != _canon(data):
                             jtext = None
                     except ValueError:
                         jtext = None
                 if ytext is not None:
                     try:
-                        if repr(yaml.load(ytext, Loader=_YLOADER)) != repr(data):
+                        if _canon(yaml.load(ytext, Loader=_YLOADER)) != _canon(data):
                             ytext = None
                     except Exception:            # noqa
                         ytext = None
@@ -1652,6 +1793,22 @@ def run_dict(tier, seed):
                              sample='%s: %s | %s %s' % (case['fam'], case['feat'], entry,
                                                         'lenient' if lenient else 'strict'))
                     chk.check(case, entry, lenient, out, reader.warnings if reader is not None else None)
+            # stored forms of JSON / YAML files: encoding, byte order mark, escaping flavour, line ends, file names
+            seen_b = set()
+            for item in _dict_encoded(tier):
+                if (item['fmt'], item['data'], item['name']) in seen_b:
+                    continue
+                seen_b.add((item['fmt'], item['data'], item['name']))
+                fpath = os.path.join(WORK, 'stored.' + item['fmt'].lower())
+                if item['name'] is not None:
+                    fpath = os.path.join(WORK, 'names', item['name'])
+                    try:
+                        os.makedirs(os.path.dirname(fpath), exist_ok=True)
+                        with open(fpath, 'wb'):
+                            pass
+                    except (OSError, ValueError):
+                        continue                # the file system does not take this name
+                _run_dict_file(col, chk, item, fpath)
     finally:
         shutil.rmtree(WORK, ignore_errors=True)
     return _result(col, chk)
